@@ -74,6 +74,12 @@ def sweep_base(base, seed, agg, opts):
                     plan.append((o, k, kind, {}))
                     if kind in ("HTTP_5XX", "CONN_ERR", "TIMEOUT", "ERR_BEFORE"):
                         plan.append((o, k, kind, {"persist": True}))
+                    if kind == "HTTP_404":
+                        plan.append((o, k, kind, {"status": 410}))
+                        plan.append((o, k, kind, {"status": 403}))
+                    if kind == "HTTP_5XX":
+                        plan.append((o, k, kind, {"status": 500}))
+                        plan.append((o, k, kind, {"status": 429}))
         # validator rejections of hits
         hits = [k for k in o["keys"] if k not in w.miss_log.get(o["id"], []) and keys[k]["val"]]
         for k in hits:
